@@ -986,6 +986,42 @@ def norm_func(repo: Repo, fi: FuncInfo, depth: int = 3, no_inline: Optional[Set[
             return n
 
     _DeAnn().visit(node)
+
+    # `return A if C else B` / `x = A if C else B`  ==  if C: ... else: ...   (so that branch-edge rules see the test)
+    def _lower_ifexp(body: List[ast.stmt]) -> List[ast.stmt]:
+        nonlocal changed_any
+        out: List[ast.stmt] = []
+        for st in body:
+            if isinstance(st, FuncNodeT + (ast.ClassDef,)):
+                out.append(st)
+                continue
+            for fld in ("body", "orelse", "finalbody"):
+                sub = getattr(st, fld, None)
+                if isinstance(sub, list) and sub and isinstance(sub[0], ast.stmt):
+                    setattr(st, fld, _lower_ifexp(sub))
+            for h in getattr(st, "handlers", []) or []:
+                h.body = _lower_ifexp(h.body)
+            v = st.value if isinstance(st, (ast.Return, ast.Assign, ast.Expr)) else None
+            if isinstance(v, ast.IfExp) and not (isinstance(st, ast.Assign) and len(st.targets) != 1):
+                changed_any = True
+
+                def mk(val):
+                    if isinstance(st, ast.Return):
+                        n_ = ast.Return(value=val)
+                    elif isinstance(st, ast.Assign):
+                        n_ = ast.Assign(targets=[_copy.deepcopy(st.targets[0])], value=val)
+                    else:
+                        n_ = ast.Expr(value=val)
+                    return ast.copy_location(n_, st)
+
+                new = ast.copy_location(ast.If(test=v.test, body=_lower_ifexp([mk(v.body)]), orelse=_lower_ifexp([mk(v.orelse)])), st)
+                ast.fix_missing_locations(new)
+                out.append(new)
+                continue
+            out.append(st)
+        return out
+
+    node.body = _lower_ifexp(node.body)
     for _round in range(depth):
         changed = False
 
@@ -1112,6 +1148,7 @@ def norm_func(repo: Repo, fi: FuncInfo, depth: int = 3, no_inline: Optional[Set[
         if not changed:
             break
         changed_any = True
+    node.body = _lower_ifexp(node.body)  # conditional expressions brought in by inlined helpers
     # private same-file helpers that are still called but could not be inlined (early returns inside loops, recursion,
     # generators, ...): rules must not turn "statement not found here" into a violation for such a function
     opaque = []
@@ -1322,6 +1359,17 @@ def bound_args(repo: Repo, fi: FuncInfo, call: ast.Call) -> Optional[Dict[str, a
     """parameter name -> argument expression for a call whose callee resolves statically (constructor calls bind
     ``__init__``); positional and keyword arguments alike; None when the callee is unknown or uses *args/**kwargs"""
     h = resolve_call(repo, fi, call)
+    if h is None and not any(isinstance(a, ast.Starred) for a in call.args) and not any(k.arg is None for k in call.keywords):
+        fields = class_fields(repo, fi, call.func)
+        if fields:
+            out0: Dict[str, ast.AST] = {}
+            for i, v in enumerate(call.args):
+                if i >= len(fields):
+                    return None
+                out0[fields[i]] = v
+            for k in call.keywords:
+                out0[k.arg] = k.value
+            return out0
     if h is None or any(isinstance(a, ast.Starred) for a in call.args) or any(k.arg is None for k in call.keywords):
         return None
     a = h.node.args
@@ -1341,12 +1389,41 @@ def bound_args(repo: Repo, fi: FuncInfo, call: ast.Call) -> Optional[Dict[str, a
     return out
 
 
+def class_fields(repo: Repo, fi: FuncInfo, callee: ast.AST) -> Optional[List[str]]:
+    """annotated fields, in order, of a class without ``__init__`` (typing.NamedTuple / dataclass style) named by ``callee``"""
+    d = q.dotted(callee)
+    if d is None:
+        return None
+    parts = d.split(".")
+    mods = [fi.module]
+    imp = _imported_tornado_modules(fi.module)
+    if parts[0] in imp and imp[parts[0]] in repo.modules and len(parts) == 2:
+        mods = [repo.modules[imp[parts[0]]]]
+        parts = parts[1:]
+    names = _imported_names(fi.module)
+    if parts[0] in names and names[parts[0]][0] in repo.modules and len(parts) == 1:
+        mods = [repo.modules[names[parts[0]][0]]]
+        parts = [names[parts[0]][1]]
+    if len(parts) != 1:
+        return None
+    for m in mods:
+        c = m.classes.get(parts[0])
+        if c is not None and (parts[0] + ".__init__") not in m.funcs:
+            f = [st.target.id for st in c.body if isinstance(st, ast.AnnAssign) and isinstance(st.target, ast.Name)]
+            return f or None
+    return None
+
+
 def argx(repo: Repo, fi: FuncInfo, call: ast.Call, index: int, name: Optional[str] = None) -> Optional[ast.AST]:
     """argument by position or by the callee's parameter name (resolved from the callee when ``name`` is not given)"""
     if index < len(call.args) and not any(isinstance(a, ast.Starred) for a in call.args[: index + 1]):
         return call.args[index]
     b = bound_args(repo, fi, call)
-    if b is not None:
+    if b is not None and resolve_call(repo, fi, call) is None:
+        fields = class_fields(repo, fi, call.func) or []
+        if index < len(fields):
+            return b.get(fields[index])
+    elif b is not None:
         h = resolve_call(repo, fi, call)
         a = h.node.args
         names = [x.arg for x in a.posonlyargs + a.args]
